@@ -14,7 +14,7 @@ class Check(differential.DifferentialCheck):
             'full 32-bit times), MX, uncompressed name (incl. IDNA labels, root) or TXT (single, multi-string, > 255 bytes) '
             'built through the library constructors and the reference encoder; distinct = SHA-1 of (class, reference bytes); '
             'non-trivial = every case')
-    BLOCKS = {'quick': 60, 'thorough': 1600}
+    BLOCKS = {'quick': 60, 'thorough': 16000}
     PER_BLOCK = 60
     ASSUMPTIONS = ('vmon/ref/dns.py is my reading of RFC 1035/2536/3110/4034/5933/6605/8080', )
 
